@@ -21,9 +21,11 @@ TRun == /\ l <= Len(Traces[tid].events) /\ l' = l + 1 /\ UNCHANGED tid
         /\ hist' = [hist EXCEPT ![1] = [k \in 1..Ev.n |-> <<1, "ok">>]]
         /\ outs' = [outs EXCEPT ![1] = [k \in 1..Ev.rows |-> "Ok"]]
         /\ how' = [how EXCEPT ![1] = "batch"] /\ UNCHANGED dead
-        /\ OneRowPerSample' /\ FaultFreeIsOk'      \* invariants as guards
 TraceSpec == TraceInit /\ [][TRun]_tvars
-Progress == LET f == TLCGet(1) IN IF f[tid] < l THEN TLCSet(1, [f EXCEPT ![tid] = l]) ELSE TRUE
+(* a state that violates an invariant is pruned and does not count as progress (an INVARIANT in the cfg would stop
+   the whole batch at the first violation; priming the invariants into the actions is an order of magnitude slower) *)
+TraceInv == OneRowPerSample /\ FaultFreeIsOk
+Progress == TraceInv /\ (LET f == TLCGet(1) IN IF f[tid] < l THEN TLCSet(1, [f EXCEPT ![tid] = l]) ELSE TRUE)
 Accepted == LET f == TLCGet(1) IN
             \A t \in 1..Len(Traces) : \/ f[t] = Len(Traces[t].events) + 1
                                       \/ PrintT(<<"REJECTED", t, f[t]>>) /\ FALSE
